@@ -809,8 +809,11 @@ def num_getattr(ev, obj: Num, name, fr, node):
         return StrV("dimensionless" if d == {} else ("unknown" if d is None else "dimensional"))
     if name == "T":
         return obj
-    if name in ("mjd", "jd", "isot"):
-        return Num(F["Opq"](sp.Symbol(name), obj.expr), kind="number", shape=obj.shape, axes=obj.axes)
+    if name in ("mjd", "jd"):
+        # a Time as a plain number of days (dimensionless): seconds * Hz / 86400
+        return Num(obj.expr * UNITS["Hz"] / 86400, kind="number", shape=obj.shape, axes=obj.axes, isfloat=True)
+    if name == "isot":
+        return StrV("<isot>")
     if name == "cycle" or name == "si" or name == "cgs":
         return obj
     if name == "flat":
@@ -1048,7 +1051,7 @@ def str_method(ev, recv: StrV, name, args, kwargs, fr, node):
     if name == "join":
         return StrV(s.join(x.s for x in ev.iterate(args[0], fr, node)))
     if name == "maketrans":
-        return OpaqueV("transtable", str.maketrans(*sa))
+        return h_maketrans(ev, args, kwargs, fr, node)
     if name == "translate":
         return StrV(s.translate(args[0].payload))
     if name == "replace":
@@ -1441,6 +1444,15 @@ def _minmax(fn):
             return Num(fn(*es))
         return Num(fn(*es, evaluate=False))
     return h
+
+
+def h_maketrans(ev, args, kwargs, fr, node):
+    if len(args) == 1 and isinstance(args[0], DictV):
+        d = {}
+        for k_, v in args[0].d.items():
+            d[k_] = v.s if isinstance(v, StrV) else (None if isinstance(v, NoneV) else ev.concrete_int(v))
+        return OpaqueV("transtable", str.maketrans(d))
+    return OpaqueV("transtable", str.maketrans(*[x.s for x in args]))
 
 
 def h_str(ev, args, kwargs, fr, node):
@@ -2034,6 +2046,19 @@ def h_result_type(ev, args, kwargs, fr, node):
     return ExtV("numpy." + (r.name if r.name != "bool" else "bool_"))
 
 
+def h_reduce(ev, args, kwargs, fr, node):
+    fn, seq = args[0], ev.iterate(args[1], fr, node)
+    if not seq:
+        if len(args) > 2:
+            return args[2]
+        from .symeval import Raised
+        raise Raised("TypeError", node, "reduce() of empty sequence")
+    acc = args[2] if len(args) > 2 else seq[0]
+    for x in (seq if len(args) > 2 else seq[1:]):
+        acc = ev.apply(fn, [acc, x], {}, fr, node)
+    return acc
+
+
 def h_unique(ev, args, kwargs, fr, node):
     x = args[0]
     if isinstance(x, NdArr) and all(isinstance(e, Num) and e.expr.is_number for e in x.items):
@@ -2409,7 +2434,7 @@ EXT = {
     "builtins.sorted": lambda ev, a, k, fr, n: ListV(sorted(ev.iterate(a[0], fr, n), key=lambda v: getattr(v, "s", str(v)))),
     "builtins.id": lambda ev, a, k, fr, n: Num(0), "builtins.hex": lambda ev, a, k, fr, n: StrV("0x0"),
     "builtins.round": h_round,
-    "builtins.str.maketrans": lambda ev, a, k, fr, n: OpaqueV("transtable", str.maketrans(*[x.s for x in a])),
+    "builtins.str.maketrans": lambda ev, a, k, fr, n: h_maketrans(ev, a, k, fr, n),
     "numpy.exp": _np_unary(sp.exp), "numpy.sqrt": _np_unary(sp.sqrt), "numpy.abs": _np_unary(sp.Abs, real=True),
     "numpy.absolute": _np_unary(sp.Abs, real=True), "numpy.floor": _np_unary(_lazy(sp.floor)), "numpy.ceil": _np_unary(_lazy(sp.ceiling)),
     "math.ceil": _np_unary(_lazy(sp.ceiling)), "math.floor": _np_unary(_lazy(sp.floor)), "math.sqrt": _np_unary(sp.sqrt),
@@ -2436,6 +2461,10 @@ EXT = {
     "numpy.result_type": lambda ev, a, k, fr, n: h_result_type(ev, a, k, fr, n),
     "numpy.promote_types": lambda ev, a, k, fr, n: h_result_type(ev, a, k, fr, n),
     "numpy.empty": lambda ev, a, k, fr, n: h_zeros(ev, a, k, fr, n),
+    "functools.reduce": lambda ev, a, k, fr, n: h_reduce(ev, a, k, fr, n),
+    "operator.or_": lambda ev, a, k, fr, n: binop(ev, ast.BitOr(), a[0], a[1], n, fr),
+    "operator.and_": lambda ev, a, k, fr, n: binop(ev, ast.BitAnd(), a[0], a[1], n, fr),
+    "numpy.searchsorted": lambda ev, a, k, fr, n: Num(F["Searchsorted"](a[0].expr, a[1].expr), kind="number", tag="index"),
     "numpy.lexsort": lambda ev, a, k, fr, n: (ev.trace.append(("lexsort", k.get("keys", a[0] if a else NONE), k.get("axis", a[1] if len(a) > 1 else NONE), n)),
                                               Num(sp.Function("Lexsort")(*[x.expr if isinstance(x, Num) else sp.Symbol("key") for x in ev.iterate(k.get("keys", a[0] if a else NONE), fr, n)])))[1],
     "numpy.unique": lambda ev, a, k, fr, n: h_unique(ev, a, k, fr, n),
@@ -2504,7 +2533,10 @@ def call_ext(ev, fn: ExtV, args, kwargs, fr, node):
                                backend=next((a.backend for a in args if isinstance(a, Num) and a.backend), None)))
         return res[0] if int(nout) == 1 else TupleV(res)
     if d in EXT:
-        return EXT[d](ev, args, kwargs, fr, node)
+        try:
+            return EXT[d](ev, args, kwargs, fr, node)
+        except (AttributeError, KeyError, IndexError, TypeError, AssertionError) as e:
+            ev.unsupported(f"the API-table entry for {d} cannot interpret these arguments ({type(e).__name__}: {e})", node, fr)
     if d.startswith("numpy.") and d.split(".")[-1] in NUMERIC_DTYPES:
         x = args[0]
         nm = d.split(".")[-1]
